@@ -11,10 +11,11 @@ Local Open Scope Z_scope.
 
 (* ---------- abs ---------- *)
 
-Lemma abs_int z : z <> i64_min -> abs_fn (VInt z) = ROk (VInt (Z.abs z)).
-Proof. intros H. unfold abs_fn. apply Z.eqb_neq in H. rewrite H. reflexivity. Qed.
+Lemma abs_int z : abs_fn (VInt z) = ROk (VInt (wrapping_abs z)).
+Proof. reflexivity. Qed.
 
-Lemma abs_int_min : abs_fn (VInt i64_min) = RPanic.
+(* the former finding C29-abs-min (a panic before /repo b0e107f): the minimum integer now wraps to itself *)
+Lemma abs_int_min : abs_fn (VInt i64_min) = ROk (VInt i64_min).
 Proof. reflexivity. Qed.
 
 Lemma abs_in_range z : ConvRes.in_i64 z = true -> z <> i64_min ->
@@ -237,38 +238,43 @@ Qed.
 
 (* ---------- integers and their text ---------- *)
 
-Lemma int_to_string_format z : z <> i64_min -> res_bind (int_to_string z) (fun s => ROk s) = format_radix z 10.
+Lemma int_to_string_format z : res_bind (int_to_string z) (fun s => ROk s) = format_radix z 10.
 Proof.
-  intros Hm. unfold int_to_string, format_radix. apply Z.eqb_neq in Hm.
-  destruct (Z.ltb_spec z 0) as [Hn|Hn].
-  - rewrite Hm. replace (Z.abs z) with (- z) by lia. destruct (digits_loop 64 10 (- z) []); reflexivity.
-  - replace (Z.abs z) with z by lia. destruct (digits_loop 64 10 z []); reflexivity.
+  unfold int_to_string, format_radix. destruct (digits_loop 64 10 (Z.abs z) []); reflexivity.
 Qed.
 
-(* to_string on an integer never fails, and both integer parsers read the text back: every i64, i64::MIN included
-   (i64's Display does not panic there, unlike format_int) *)
+(* to_string on an integer never fails, and both integer parsers read the text back: every i64, i64::MIN included *)
 Theorem int_text_roundtrip fmt_f64 fmt_ts z : ConvRes.in_i64 z = true ->
   exists s, to_string fmt_f64 fmt_ts (VInt z) = ROk (VBytes s)
             /\ parse_int (VBytes s) None = ROk (VInt z)
             /\ to_int (VBytes s) = ROk (VInt z).
 Proof.
-  intros Hz. destruct (Z.eq_dec z i64_min) as [->|Hm].
-  - eexists. split; [vm_compute; reflexivity|]. split; vm_compute; reflexivity.
-  - pose proof (int_to_string_format z Hm) as Hf.
-    destruct (format_radix_roundtrip 10 z ltac:(lia) Hz Hm) as (s & Hs & Hp).
-    destruct (int_roundtrip_default z Hz Hm) as (s' & Hs' & Hp').
-    assert (s' = s) as ->.
-    { unfold format_int_opt, format_int in Hs'. change ((2 <=? 10) && (10 <=? 36)) with true in Hs'. cbv iota in Hs'.
-      rewrite Hs in Hs'. cbn [res_bind] in Hs'. congruence. }
-    exists s. unfold to_string. rewrite Hs in Hf.
-    destruct (int_to_string z) as [s0| | |]; cbn [res_bind] in Hf; try discriminate.
-    inversion Hf; subst s0. cbn [res_bind]. split; [reflexivity|]. split; [exact Hp'|].
-    unfold to_int, parse_i64. rewrite Hp. reflexivity.
+  intros Hz. pose proof (int_to_string_format z) as Hf.
+  destruct (format_radix_roundtrip 10 z ltac:(lia) Hz) as (s & Hs & Hp).
+  destruct (int_roundtrip_default z Hz) as (s' & Hs' & Hp').
+  assert (s' = s) as ->.
+  { unfold format_int_opt, format_int in Hs'. change ((2 <=? 10) && (10 <=? 36)) with true in Hs'. cbv iota in Hs'.
+    rewrite Hs in Hs'. cbn [res_bind] in Hs'. congruence. }
+  exists s. unfold to_string. rewrite Hs in Hf.
+  destruct (int_to_string z) as [s0| | |]; cbn [res_bind] in Hf; try discriminate.
+  inversion Hf; subst s0. cbn [res_bind]. split; [reflexivity|]. split; [exact Hp'|].
+  unfold to_int, parse_i64. rewrite Hp. reflexivity.
 Qed.
 
-(* ---------- the known finding at i64::MIN ---------- *)
+(* ---------- abs on every i64 ---------- *)
 
-(* the property asks for wrapping at the minimum integer; the model (like the implementation built with overflow
-   checks) panics there *)
-Lemma abs_min_refuted : exists z, ConvRes.in_i64 z = true /\ abs_fn (VInt z) <> ROk (VInt (wrapping_abs z)).
-Proof. exists i64_min. split; [reflexivity|]. rewrite abs_int_min. discriminate. Qed.
+(* the result is always an i64; it is |z| except at the minimum integer, which wraps to itself *)
+Lemma abs_total z : ConvRes.in_i64 z = true ->
+  abs_fn (VInt z) = ROk (VInt (wrap64 (Z.abs z)))
+  /\ ConvRes.in_i64 (wrap64 (Z.abs z)) = true
+  /\ (z <> i64_min -> wrap64 (Z.abs z) = Z.abs z /\ 0 <= Z.abs z)
+  /\ (z = i64_min -> wrap64 (Z.abs z) = i64_min).
+Proof.
+  intros Hz. split; [reflexivity|].
+  pose proof (wrapping_abs_spec z Hz) as Hw. unfold wrapping_abs in Hw.
+  split; [|split].
+  - destruct (Z.eqb_spec z i64_min) as [->|Hne]; rewrite Hw; [reflexivity|].
+    apply (abs_in_range z Hz Hne).
+  - intros Hne. destruct (Z.eqb_spec z i64_min) as [E|_]; [contradiction|]. split; [exact Hw | lia].
+  - intros ->. reflexivity.
+Qed.
